@@ -284,7 +284,12 @@ RELABEL_ONLY = {"C04/": r"fsm:AR_(2|4|8|9|10)/(protocol-effects-are-exactly-PS3\
 def tasks(tier):
     from contracts import C04
     return [IsReleaseRequestedTask(), CallSiteScan(), S.WrapHandlerTask("C20/"), RunReactorTask(), W.WrapTask("find"), W.WrapTask("getmove")] + \
-        [C04.ActionTask(a) for a in RELEASE_ACTIONS] + [C04.DoActionTask(e) for e in ("Evt12", "Evt14")] + [_negotiate_release()]
+        [C04.ActionTask(a) for a in RELEASE_ACTIONS] + [C04.DoActionTask(e) for e in ("Evt12", "Evt14")] + [_negotiate_release(), _send_release()]
+
+
+def _send_release():
+    from contracts.assoc_abort import SendReleaseTask
+    return SendReleaseTask("C07/")
 
 
 def _negotiate_release():
